@@ -29,6 +29,16 @@ def _get_range_start_end(rng: ast.Call) -> Tuple[ast.AST, ast.AST]:
     raise NotImplementedError(f"Cannot parse range with arg count of {len(rng.args)}")
 
 
+def _literal_int(node: ast.AST) -> int | None:
+    """The value of node if it is a known integer (for example 3 or -1), otherwise None."""
+    try:
+        value = core.literal_value(node)
+    except ValueError:
+        return None
+
+    return value if type(value) is int else None
+
+
 def _parse_sympy_expr(expression):
     return sympy.parsing.sympy_parser.parse_expr(expression)
 
@@ -690,20 +700,10 @@ def simplify_constrained_range(source: str) -> str:
         else:
             continue
 
-        if core.match_template(args[0], ast.Constant(value=int)):
-            start = args[0].value
-        else:
-            start = None
-
-        if core.match_template(args[1], ast.Constant(value=int)):
-            stop = args[1].value
-        else:
-            stop = None
-
-        if core.match_template(args[2], ast.Constant(value=int)):
-            step = args[2].value
-        else:
-            step = None
+        # Bounds that are not known integers are None. A condition can only move a known bound.
+        start = _literal_int(args[0])
+        stop = _literal_int(args[1])
+        step = _literal_int(args[2])
 
         target_name = comp.target.id
 
@@ -754,7 +754,8 @@ def simplify_constrained_range(source: str) -> str:
         ),)
         templates = (gt_template, lt_template, gte_template, lte_template, eq_template)
 
-        if core.match_template(step, ast.Constant(value=int)) and step.value < 0:
+        if step != 1:
+            # Moving the bounds of a range with another step changes which values it hits
             continue
 
         redundant_conditions = set()
@@ -764,80 +765,55 @@ def simplify_constrained_range(source: str) -> str:
             else:
                 comparator = condition.comparators[0]
 
+            if type(comparator.value) is not int:
+                continue
+
             if core.match_template(condition, gt_template):
-                if start is None or comparator.value > start:
+                if start is not None and comparator.value >= start:
                     start = comparator.value + 1
                     redundant_conditions.add(condition)
 
             elif core.match_template(condition, lt_template):
-                if stop is None or comparator.value <= stop:
+                if stop is not None and comparator.value <= stop:
                     stop = comparator.value
                     redundant_conditions.add(condition)
 
             elif core.match_template(condition, gte_template):
-                if start is None or comparator.value >= start:
+                if start is not None and comparator.value >= start:
                     start = comparator.value
                     redundant_conditions.add(condition)
 
             elif core.match_template(condition, lte_template):
-                if stop is None or comparator.value < stop:
+                if stop is not None and comparator.value < stop:
                     stop = comparator.value + 1
                     redundant_conditions.add(condition)
 
             elif core.match_template(condition, eq_template):
-                changes = False
-                if start is None or comparator.value >= start:
+                if start is None or stop is None:
+                    continue
+
+                if start <= comparator.value < stop:
                     start = comparator.value
-                    changes = True
-                elif comparator.value < start:  # Infeasible
-                    start = stop = 0
-
-                if stop is None or comparator.value < stop:
                     stop = comparator.value + 1
-                    changes = True
-                elif comparator.value >= stop:  # Infeasible
+                else:  # Infeasible
                     start = stop = 0
 
-                if changes:
-                    redundant_conditions.add(condition)
+                redundant_conditions.add(condition)
 
         if start is not None and stop is not None and start >= stop:
             new_comp = ast.comprehension(
                 target=comp.target, iter=ast.Tuple(elts=[]), ifs=[], is_async=comp.is_async
             )
             yield node, type(node)(generators=[new_comp], elt=node.elt)
+            continue
 
         if not redundant_conditions:
             continue
 
-        if start == 0:
-            start = None
-
-        if step == 1:
-            step = None
-
         for condition in redundant_conditions:
             yield condition, ast.Constant(value=True, kind=None)
 
-        if start is not None and step is not None:
-            yield comp.iter, ast.Call(
-                func=ast.Name(id="range"),
-                args=[
-                    ast.Constant(value=start, kind=None),
-                    ast.Constant(value=stop, kind=None),
-                    ast.Constant(value=step, kind=None),
-                ],
-                keywords=[],
-            )
-
-        elif start is not None:
-            yield comp.iter, ast.Call(
-                func=ast.Name(id="range"),
-                args=[ast.Constant(value=start, kind=None), ast.Constant(value=stop, kind=None)],
-                keywords=[],
-            )
-
-        else:
-            yield comp.iter, ast.Call(
-                func=ast.Name(id="range"), args=[ast.Constant(value=stop, kind=None)], keywords=[]
-            )
+        start_node = args[0] if start is None else ast.Constant(value=start, kind=None)
+        stop_node = args[1] if stop is None else ast.Constant(value=stop, kind=None)
+        range_args = [stop_node] if start == 0 else [start_node, stop_node]
+        yield comp.iter, ast.Call(func=ast.Name(id="range"), args=range_args, keywords=[])
